@@ -27,6 +27,8 @@ SECRET_OWNERS = ['commitment_opening::CommitmentOpening', 'range_witness::RangeW
 DECLASSIFY_LAST = {'vartime_multiscalar_mul', 'multiscalar_mul', 'vartime_mixed_multiscalar_mul', 'compress', 'commit', 'decompress',
                    'is_identity', 'len', 'is_empty', 'capacity', 'to_string', 'is_some', 'is_none', 'r_len'}
 WIPING_CALLEES = ('zeroize::Zeroizing::<Z>::new',)
+# vector operations that may copy the contents into a fresh allocation and free the old one un-wiped
+REALLOCATING = ('shrink_to_fit', 'shrink_to', 'reserve', 'reserve_exact', 'try_reserve', 'try_reserve_exact', 'into_boxed_slice', 'insert', 'resize', 'resize_with')
 
 # reviewed exceptions: key -> reason
 TABLED = {
@@ -535,6 +537,60 @@ def no_realloc(ctx, taint, wiping_adts):
                 rep.check(ok, 'R-C20-3', key, 'secret vector is created with_capacity(%s), which covers its filling loops' % ccap[:80],
                           'secret vector is created with_capacity(%s) but filled by loops over %s: it may reallocate' % (ccap[:80], [canon(x)[:60] for x in loop_bounds]), ctx.where(b, ctor_bb))
     rep.floor('R-C20-3', 'secret vector construction sites', n, 5)
+    # (c) operations that move the contents of a vector to another block (and release the old one as it is): none may be applied to
+    #     a vector that holds secret data -- whether the data is already known to be secret (it was read from a secret owner) or
+    #     becomes so because this very function stores the vector in a secret field of a secret owner (a constructor)
+    nre = 0
+    for b in facts.fns():
+        if b.impl_trait in ('std::fmt::Debug', 'std::fmt::Display'):
+            continue
+        ix = ctx.eng.bx(b)
+        evs = [e for e in ix.events() if e['kind'] == 'call' and e['decl'].split('::')[-1] in REALLOCATING and 'Vec' in e['decl']]
+        if not evs:
+            continue
+        stored = {}
+        for blk in b.blocks:
+            if blk.get('cleanup'):
+                continue
+            for st in blk['stmts']:
+                if st['k'] == 'assign' and st['rv']['k'] == 'aggregate' and st['rv']['kind'].get('a') == 'adt' and \
+                        any(st['rv']['kind'].get('path', '').startswith(o) for o in SECRET_OWNERS):
+                    for fname, o in zip(st['rv']['kind'].get('fields', []), st['rv']['ops']):
+                        if fname in taint.secret_fields and o['k'] in ('copy', 'move'):
+                            stored[('L', o['place']['l'])] = fname
+                            l0, seen0 = o['place']['l'], set()
+                            while l0 not in seen0:
+                                # the operand is a temporary that the vector was moved into
+                                seen0.add(l0)
+                                wd = ix.whole_defs(l0)
+                                rv0 = wd[0][3]['rv'] if len(wd) == 1 and wd[0][2] == 'assign' else None
+                                if rv0 is not None and rv0['k'] == 'use' and rv0['op']['k'] in ('copy', 'move') and not rv0['op']['place']['p']:
+                                    l0 = rv0['op']['place']['l']
+                                    stored[('L', l0)] = fname
+        for e in evs:
+            nre += 1
+            op = e['decl'].split('::')[-1]
+            why = None
+            for r in e['roots']:
+                if r in stored:
+                    why = 'the vector becomes field `%s` of a secret owner' % stored[r]
+            if why is None:
+                src = set()
+                for r in e['roots']:
+                    if r[0] == 'L':
+                        lty = b.local_ty(r[1])
+                        if wiping_type(ctx, lty, wiping_adts) and not lty.startswith('zeroize::Zeroizing<std::vec::Vec<'):
+                            continue
+                        try:
+                            src |= taint.sources(ctx.eng.operand(b, e['bb'], TERM_IDX, {'k': 'copy', 'place': {'l': r[1], 'p': [], 'ty': lty}}))
+                        except Exception:
+                            pass
+                if src:
+                    why = 'the vector holds %s' % ', '.join(sorted(src))
+            key = 'R-C20-3/%s/moves-contents/%s' % (b.path, op)
+            rep.check(why is None, 'R-C20-3', key, '`%s` is applied to a vector of public data' % op,
+                      '`%s` may move the contents to a new block and release the old one without wiping it: %s' % (op, why), ctx.where(b, e['bb']))
+    rep.note('R-C20-3: %d content-moving vector operations examined' % nre)
 
 
 def bound_above(ctx, body, bb, poly):
